@@ -4,6 +4,8 @@
 From SPV Require Export Base.Corr Model.OptStr Model.Help Model.HelpSpec Gen.FactsConflicts Gen.FactsHelp.
 
 Record variant := mkvar {
+  v_full : bool;                                 (* false: observed under a hash seed for which only the help text, the registered
+                                                    actions and the orders were recorded (the four probes below were not run) *)
   v_oracle : list (list string);                 (* enumeration orders of spelling sets under this hash seed *)
   v_end : err;                                   (* how parse_args(["--help"]) ended *)
   v_stream : option stream;                      (* Some SOut: text on stdout only; Some SErr: on stderr only; None: neither/both *)
@@ -54,9 +56,10 @@ Definition variant_model_ok (c : case) (v : variant) : bool :=
      | None, None => match v.(v_groups) with [] => true | _ => false end
      | _, _ => false
      end
-  && res_eqb groups_eqb (api_help_of_gen perm c.(c_cfg) c.(c_pre) c.(c_cfgf) s) v.(v_api)
-  && res_eqb view_eqb (drop_req c.(c_req) (parse_defaults_of_gen true c.(c_pre) c.(c_cfgf) s)) v.(v_after)
-  && res_eqb view_eqb (drop_req c.(c_req) (parse_defaults_of_gen false c.(c_pre) c.(c_cfgf) s)) v.(v_fresh).
+  && (negb v.(v_full)
+      || (res_eqb groups_eqb (api_help_of_gen perm c.(c_cfg) c.(c_pre) c.(c_cfgf) s) v.(v_api)
+          && res_eqb view_eqb (drop_req c.(c_req) (parse_defaults_of_gen true c.(c_pre) c.(c_cfgf) s)) v.(v_after)
+          && res_eqb view_eqb (drop_req c.(c_req) (parse_defaults_of_gen false c.(c_pre) c.(c_cfgf) s)) v.(v_fresh))).
 
 Definition model_ok (c : case) : bool :=
   negb (match c.(c_variants) with [] => true | _ => false end) && forallb (variant_model_ok c) c.(c_variants).
@@ -70,8 +73,9 @@ Definition variant_spec_ok (c : case) (v : variant) : bool :=
       && help_describes (layered c.(c_pre) c.(c_cfgf)) v.(v_accepted) c.(c_forest) v.(v_groups)
       && hidden_ok c.(c_forest) v.(v_action_dests) v.(v_hidden)
       && v.(v_format_help_same)
-      && res_eqb groups_eqb v.(v_api) (Ok v.(v_groups))          (* print_help() shows what --help shows *)
-      && res_eqb view_eqb v.(v_after) v.(v_fresh)                (* and leaves later parsing alone *)
+      && (negb v.(v_full)
+          || (res_eqb groups_eqb v.(v_api) (Ok v.(v_groups))     (* print_help() shows what --help shows *)
+              && res_eqb view_eqb v.(v_after) v.(v_fresh)))      (* and leaves later parsing alone *)
   end.
 
 Definition spec_ok (c : case) : bool :=
